@@ -133,12 +133,12 @@ READ_RE = re.compile(r'==== (Read Memory|Reading FlipJump Variable|Read Memory F
 VAL_RE = re.compile(r'= (\d+)  \(or 0x')
 
 
-def run_session(path, image, answers, breakpoints, script, w, cmds, DEVICE, probe):
+def run_session(path, image, answers, breakpoints, script, w, cmds, DEVICE, probe, handler=None):
     from flipjump.interpreter import fjm_run
     from flipjump.interpreter.debugging.breakpoints import BreakpointHandler
     text = ''.join(cmds[c][0] + '\n' for c in script)
     l2a = labels(w)
-    handler = BreakpointHandler({a: None for a in breakpoints}, {a: n for n, a in l2a.items()}, dict(l2a))
+    handler = handler or BreakpointHandler({a: None for a in breakpoints}, {a: n for n, a in l2a.items()}, dict(l2a))
     dev = DEVICE(answers)
     so, si = sys.stdout, sys.stdin
     buf = io.StringIO()
@@ -270,8 +270,41 @@ def work(task):
                 if sample is None and len(exp['pauses']) >= 2 and exp['reads']:
                     sample = {'w': w, 'program': pname, 'breakpoints': list(bset), 'script': [cmds[c][0] for c in script],
                               'model_pauses': exp['pauses'], 'model_reads': exp['reads'], 'end': exp['end']}
+    if part == 0:
+        label_set_sessions(path, image, answers, base, visited, w, cmds, probe, pname, sieve, stats)
     stats['states'] = len(states)
     return stats, sieve.result(), sample
+
+
+def label_set_sessions(path, image, answers, base, visited, w, cmds, probe, pname, sieve, stats):
+    """breakpoints asked for BY LABEL: every subset of three existing and three unknown labels (sorting before / between /
+    after them) through get_breakpoint_handler; the debugger stops exactly at the existing ones."""
+    from flipjump.interpreter.debugging.breakpoints import get_breakpoint_handler
+    from flipjump.utils.functions import save_debugging_labels
+    from fjv.enginecheck import scratch
+    from fjv.asm import quiet
+    table = {'lab_b': visited[0], 'main.lab_c': visited[min(1, len(visited) - 1)], 'lab_a': visited[min(2, len(visited) - 1)], 'never': max(visited) + 4 * w}
+    dbg = scratch() / f'c15-{w}-labels.fjd'
+    save_debugging_labels(dbg, table)
+    names = ['lab_a', 'lab_b', 'main.lab_c', 'Lab_a', 'lab_', 'zz_none']
+    cont = [i for i, c in enumerate(cmds) if c[0] == 'c'][0]
+    for r in range(1, len(names) + 1):
+        for sub in itertools.combinations(names, r):
+            want = {table[n] for n in sub if n in table}
+            for script in ((), (cont,) * 6):
+                with quiet():
+                    handler = get_breakpoint_handler(dbg, None, set(sub), None)
+                exp = model_session(image, answers, base, want, script, w, cmds)
+                obs = run_session(path, image, answers, want, script, w, cmds, DEVICE, probe, handler=handler)
+                stats['sessions'] += 1
+                stats['label_set_sessions'] = stats.get('label_set_sessions', 0) + 1
+                bad = obs['exc'] or obs['pauses'] != exp['pauses']
+                if bad:
+                    sieve.add({'kind': 'breakpoints asked for by label: the debugger does not stop exactly at the existing ones', 'class': 'label set',
+                               'case': {'w': w, 'program': pname, 'image': image.to_json(), 'answers': answers, 'label_table': table, 'labels_asked': list(sub),
+                                        'script': [cmds[c][0] for c in script]},
+                               'expected': {'pauses': exp['pauses']}, 'observed': {'pauses': obs['pauses'], 'exception': obs['exc']}, 'ref_trace': base.steps,
+                               'summary': f'w={w} {pname} labels asked={list(sub)} (table {table}): pauses {obs["pauses"]} instead of {exp["pauses"]}'})
 
 
 DEVICE = None
@@ -309,9 +342,21 @@ def replay(args):
     image = R1.Image.from_json(c['image'])
     base = R1.run(image, c['answers'], H)
     cmds = commands(w, image)
+    handler = None
+    if 'labels_asked' in c:
+        from flipjump.interpreter.debugging.breakpoints import get_breakpoint_handler
+        from flipjump.utils.functions import save_debugging_labels
+        from fjv.enginecheck import scratch
+        from fjv.asm import quiet
+        dbg = scratch() / 'replay.fjd'
+        save_debugging_labels(dbg, c['label_table'])
+        with quiet():
+            handler = get_breakpoint_handler(dbg, None, set(c['labels_asked']), None)
+        c['breakpoints'] = [c['label_table'][n] for n in c['labels_asked'] if n in c['label_table']]
+        c['script_idx'] = [[x[0] for x in cmds].index(t) for t in c['script']]
     script = tuple(c['script_idx'])
     exp = model_session(image, c['answers'], base, set(c['breakpoints']), script, w, cmds)
-    obs = run_session(write_image(image, 'replay.fjm'), image, c['answers'], set(c['breakpoints']), script, w, cmds, DEVICE, probe_words(image, base))
+    obs = run_session(write_image(image, 'replay.fjm'), image, c['answers'], set(c['breakpoints']), script, w, cmds, DEVICE, probe_words(image, base), handler=handler)
     print('reference trace:', base.steps, base.cause, base.ops)
     print('model   :', exp)
     print('observed:', {k: v for k, v in obs.items() if k != 'mem'})
